@@ -239,11 +239,12 @@ package evaluator
 
 //@ func (s *scope) update(name string, val value)
 //@   props C10 C09
-//@   requires name == "_" || bound(s, name)
+//@   requires[assumed-bound] name == "_" || bound(s, name)
 //@   ensures[C10 domains] forall(t, *scope, forall(k, string, has(t.values, k) == old(has(t.values, k))))
 //@   ensures[C10 other-names] forall(t, *scope, forall(k, string, k != name || name == "_" ==> t.values[k] == old(t.values[k])))
 //@   ensures[C10 C09 innermost] name != "_" && old(has(s.values, name)) ==> s.values[name] == val && forall(t, *scope, t.values != s.values ==> t.values[name] == old(t.values[name]))
 //@   ensures[C10 only-where-bound] forall(t, *scope, !old(has(t.values, name)) ==> t.values[name] == old(t.values[name]))
+//@   ensures[C02 store] old(storeOK()) && okValue(val) ==> storeOK()
 //@   mustfail ensures[C10 canary] s.values[name] == val
 //@   modifies owned scope.values
 
